@@ -12,13 +12,13 @@ open I18n.Spec.LocaleRe
 def localeRegexp : Anchored :=
   ⟨.seq (.group 1 (.atLeast 2 (.cls [(97, 122)])))
     (.seq (.opt (.seq (.cls [(95, 95)]) (.group 2 (.atLeast 2 (.cls [(65, 90)])))))
-      (.seq (.opt (.seq (.cls [(46, 46)]) (.group 3 (.atLeast 1 (.cls [(97, 122), (65, 90), (48, 57), (43, 43), (45, 45)])))))
+      (.seq (.opt (.seq (.cls [(46, 46)]) (.group 3 (.atLeast 1 (.cls [(43, 43), (45, 45), (48, 57), (65, 90), (97, 122)])))))
         (.opt (.seq (.cls [(64, 64)]) (.group 4 (.atLeast 1 (.cls [(97, 122)]))))))),
    .endString⟩
 
 def lowerR : List (Nat × Nat) := [(97, 122)]
 def upperR : List (Nat × Nat) := [(65, 90)]
-def encR : List (Nat × Nat) := [(97, 122), (65, 90), (48, 57), (43, 43), (45, 45)]
+def encR : List (Nat × Nat) := [(43, 43), (45, 45), (48, 57), (65, 90), (97, 122)]
 
 /-- the four parts of a locale name, as written -/
 structure Parts where
